@@ -166,3 +166,7 @@ pub fn property() -> Property {
         ],
     }
 }
+
+pub fn oracle_pub(case: &GraphCase, obs: &mut Obs) -> Result<(), Violation> {
+    oracle(case, obs)
+}
